@@ -232,6 +232,38 @@ var scenarios = []scenario{
 			r.RunToEnd(g1)
 			r.Drain(nil)
 		}},
+	{name: "first-sync-depth-then-burst", cfg: schedrv.Config{NPub: 1, ChainLen: 6, FirstDepth: 1},
+		what: "FirstSyncDepth(1): the first sync (head 1) is within it; then three announcements arrive while a sync is running and the coalesced sync spans two new advertisements",
+		run: func(r *schedrv.Run) {
+			pubN(r, 0, 1)
+			g := announce(r, 0, 1)
+			r.RunToEnd(g)
+			pubN(r, 0, 1)
+			g2 := announce(r, 0, 2)
+			r.RunUntil(g2, schedrv.YHandleLocked)
+			pubN(r, 0, 1)
+			announce(r, 0, 3)
+			pubN(r, 0, 1)
+			announce(r, 0, 4)
+			r.Drain(nil)
+		}},
+	{name: "first-sync-depth-two-then-long-gap", cfg: schedrv.Config{NPub: 2, ChainLen: 6, FirstDepth: 2},
+		what: "FirstSyncDepth(2): first syncs of two publishers (heads 2 and 1), then publisher 0 announces a head four advertisements further and publisher 1 is synced explicitly three further",
+		run: func(r *schedrv.Run) {
+			pubN(r, 0, 2)
+			pubN(r, 1, 1)
+			g := announce(r, 0, 2)
+			r.RunToEnd(g)
+			e := explicit(r, 1)
+			r.RunToEnd(e)
+			pubN(r, 0, 4)
+			pubN(r, 1, 3)
+			g2 := announce(r, 0, 6)
+			r.RunToEnd(g2)
+			e2 := explicit(r, 1)
+			r.RunToEnd(e2)
+			r.Drain(nil)
+		}},
 	{name: "relayed-then-announced", cfg: schedrv.Config{NPub: 1, ChainLen: 4, Filter: true},
 		what: "a peer the allow filter rejects announces the publisher's head first, then the publisher announces the same head",
 		run: func(r *schedrv.Run) {
@@ -381,7 +413,8 @@ func randomRun(rng *vlib.Rand, cfg schedrv.Config, g genCfg) *schedrv.Run {
 		}
 		if g.anns > 0 {
 			for p := 0; p < cfg.NPub; p++ {
-				if r.M.Pubhead[p] < cfg.ChainLen {
+				// with FirstSyncDepth(d) a publisher's first sync stays within d advertisements
+				if r.M.Pubhead[p] < cfg.ChainLen && (cfg.FirstDepth == 0 || r.M.Latest[p] != 0 || r.M.Pubhead[p] < cfg.FirstDepth) {
 					opts = append(opts, opt{schedrv.Decision{K: "pub", P: p}, 6})
 				}
 				if cfg.Filter {
@@ -543,6 +576,12 @@ func report(c *vlib.Ctx, name string, r *schedrv.Run, what string) {
 			c.Count("stalled-requests")
 		}
 	}
+	if r.Cfg.Cap > 0 && r.Cfg.CapFirst {
+		c.Count("kind:limit-option-first")
+	}
+	if r.Cfg.FirstDepth > 0 {
+		c.Count("kind:first-sync-depth")
+	}
 	if r.Cfg.Filter {
 		c.Count("kind:allow-filter")
 		for _, d := range r.Decisions {
@@ -635,7 +674,19 @@ func main() {
 		return
 	}
 
+	// every schedule with a concurrency limit is also run with MaxAsyncConcurrency given BEFORE
+	// RecvAnnounce in the option list
+	all := append([]scenario{}, scenarios...)
 	for _, sc := range scenarios {
+		if sc.cfg.Cap > 0 {
+			sc2 := sc
+			sc2.name += "/limit-option-first"
+			sc2.cfg.CapFirst = true
+			sc2.what += " (MaxAsyncConcurrency passed before RecvAnnounce)"
+			all = append(all, sc2)
+		}
+	}
+	for _, sc := range all {
 		cfg := sc.cfg
 		cfg.V = v
 		r := schedrv.NewRun(cfg)
@@ -664,6 +715,15 @@ func main() {
 		if cfg.Filter {
 			g.rejs, g.flips = 2+rng.Intn(5), 1+rng.Intn(3)
 		}
+		// option order: MaxAsyncConcurrency before / after RecvAnnounce
+		cfg.CapFirst = rng.Intn(2) == 0
+		firstDepth := 0
+		if rng.Intn(4) == 0 {
+			// FirstSyncDepth 1 or 2, no failing syncs (a failed first sync would make the next
+			// one the first again), more announcements so that coalesced syncs span several ads
+			firstDepth = 1 + rng.Intn(2)
+			g.anns += 3
+		}
 		if rng.Intn(3) == 0 {
 			g.ents = 1 + rng.Intn(2)
 		}
@@ -685,6 +745,10 @@ func main() {
 		case 3:
 			g.exps = 1 + rng.Intn(2)
 			g.failPct = 35
+		}
+		if firstDepth > 0 {
+			cfg.FirstDepth = firstDepth
+			g.failPct = 0
 		}
 		r := randomRun(rng, cfg, g)
 		report(c, "sched", r, fmt.Sprintf("seeded random schedule #%d", n))
@@ -735,7 +799,7 @@ func main() {
 			}
 		}
 	}
-	c.Note(fmt.Sprintf("%d directed + %d random schedules + %d free-running rounds in %.1fs", len(scenarios), n, nfree, time.Since(t0).Seconds()))
+	c.Note(fmt.Sprintf("%d directed + %d random schedules + %d free-running rounds in %.1fs", len(all), n, nfree, time.Since(t0).Seconds()))
 	if os.Getenv("C08_VERBOSE") != "" {
 		fmt.Println(c.Res.Notes)
 	}
